@@ -20,6 +20,9 @@ import (
 	peermgr "github.com/meshplus/bitxhub-core/peer-mgr"
 	"github.com/meshplus/bitxhub-kit/types"
 	"github.com/meshplus/bitxhub-model/pb"
+	"github.com/meshplus/bitxhub/internal/app"
+	"github.com/meshplus/bitxhub/internal/model/events"
+	"github.com/meshplus/bitxhub/internal/repo"
 	"github.com/meshplus/bitxhub/pkg/order/etcdraft"
 	"github.com/meshplus/bitxhub/pkg/order/solo"
 	"github.com/sirupsen/logrus"
@@ -73,6 +76,7 @@ type pipeNet struct {
 	out   *bufio.Writer
 	reqID uint64
 	wait  map[uint64]chan []byte
+	feed  event.Feed // incoming order messages, for the real feed hub (-feedhub)
 }
 
 func (p *pipeNet) emit(m *wireMsg) {
@@ -133,7 +137,7 @@ func (p *pipeNet) Disconnect(map[uint64]*pb.VpInfo)              {}
 func (p *pipeNet) OrderPeers() map[uint64]*pb.VpInfo             { return map[uint64]*pb.VpInfo{} }
 func (p *pipeNet) UpdateRouter(map[uint64]*pb.VpInfo, bool) bool { return false }
 func (p *pipeNet) SubscribeOrderMessage(ch chan<- peermgr.OrderMessageEvent) event.Subscription {
-	return event.NewSubscription(func(q <-chan struct{}) error { <-q; return nil })
+	return p.feed.Subscribe(ch)
 }
 func (p *pipeNet) OtherPeers() map[uint64]*peer.AddrInfo {
 	out := map[uint64]*peer.AddrInfo{}
@@ -213,6 +217,7 @@ func ordNode(args []string) int {
 	inc := fs.Int("inc", 0, "incarnation")
 	timed := fs.Bool("timed", false, "timed block generation (empty blocks allowed)")
 	lagMs := fs.Int("lag", 0, "upper bound (ms) of the stand-in executor's delay between persisting a block and reporting it")
+	feedhub := fs.Bool("feedhub", false, "blocks and peer messages go through the node's real feed hub (internal/app) instead of a loop of this harness")
 	killAfter := fs.Int("kill-after-deliveries", 0, "SIGKILL itself at VERIF_ORD_KILL point on the n-th delivery of this incarnation")
 	fs.Parse(args)
 	os.MkdirAll(*dir, 0755)
@@ -302,10 +307,11 @@ func ordNode(args []string) int {
 	}
 	// ---- stand-in executor
 	delivered := 0
-	go func() {
-		for ev := range node.Commit() {
+	var hubExec *feedExec
+	deliver := func(ev *pb.CommitEvent) {
+		{
 			if ev == nil || ev.Block == nil {
-				continue
+				return
 			}
 			h := ev.Block.BlockHeader.Number
 			var hashes []string
@@ -343,12 +349,32 @@ func ordNode(args []string) int {
 			net.emit(&wireMsg{T: "deliver", H: h})
 			// the real executor needs time to execute a block: the report to the order layer lags behind
 			// the delivery (ordering runs ahead of execution)
+			lag := time.Duration(0)
 			if *lagMs > 0 {
-				time.Sleep(time.Duration((h*2654435761)%uint64(*lagMs*1000)) * time.Microsecond)
+				lag = time.Duration((h*2654435761)%uint64(*lagMs*1000)) * time.Microsecond
 			}
+			if hubExec != nil {
+				// the hub reports to the order layer when the executor announces the executed block
+				blk := &pb.Block{BlockHeader: &pb.BlockHeader{Number: h, Timestamp: ev.Block.BlockHeader.Timestamp}, Transactions: ev.Block.Transactions, BlockHash: types.NewHash([]byte(fmt.Sprintf("%032d", h)))}
+				hubExec.announce(lag, events.ExecutedEvent{Block: blk, TxHashList: hl})
+				return
+			}
+			time.Sleep(lag)
 			node.ReportState(h, types.NewHash([]byte(fmt.Sprintf("%032d", h))), hl)
 		}
-	}()
+	}
+	if *feedhub {
+		hubExec = &feedExec{deliver: deliver, q: make(chan func(), 4096)}
+		go hubExec.run()
+		hub := app.VerifFeedHub(node, hubExec, nopRouter{}, &feedPM{pipeNet: net}, &repo.Repo{}, lg)
+		hub.VerifStart()
+	} else {
+		go func() {
+			for ev := range node.Commit() {
+				deliver(ev)
+			}
+		}()
+	}
 	go func() {
 		if err := node.Start(); err != nil {
 			fmt.Fprintln(os.Stderr, "Start:", err)
@@ -369,7 +395,11 @@ func ordNode(args []string) int {
 		case "msg":
 			pm := &pb.Message{}
 			if pm.Unmarshal(data) == nil {
-				go node.Step(pm.Data)
+				if *feedhub {
+					net.feed.Send(peermgr.OrderMessageEvent{Data: pm.Data})
+				} else {
+					go node.Step(pm.Data)
+				}
 			}
 		case "tx":
 			tx, err := pb.UnmarshalTx(data)
